@@ -175,7 +175,9 @@ class Host:
     """a program on disk, imported under unique module names; `close()` removes it."""
     _n = 0
 
-    def __init__(self, files):
+    def __init__(self, files, nosource=()):
+        """`nosource`: relative paths of `files` that are NOT written to disk but compiled from the string, with
+        that path as their file name: `inspect.getsourcelines` of their frames raises OSError."""
         self.dir = tempfile.mkdtemp(prefix='vhost_')
         self.mods = {}
         self.paths = {}
@@ -183,6 +185,8 @@ class Host:
         self.arr = queue.SimpleQueue()
         self.tl = threading.local()
         for rel, src in files.items():
+            if rel in nosource:
+                continue
             p = os.path.join(self.dir, rel)
             os.makedirs(os.path.dirname(p), exist_ok=True)
             with open(p, 'w') as f:
@@ -190,6 +194,14 @@ class Host:
         for rel in files:
             p = os.path.join(self.dir, rel)
             name = 'm0x' if rel != os.path.basename(rel) else os.path.basename(rel)[:-3]
+            if rel in nosource:
+                import types
+                mod = types.ModuleType('vhost%d_%s' % (Host._n, name))
+                mod.__dict__.update(_ARR=self.arr, _TL=self.tl, _dec=self.dec)
+                exec(compile(files[rel], p, 'exec'), mod.__dict__)
+                self.mods[name] = mod
+                self.paths[name] = p
+                continue
             spec = importlib.util.spec_from_file_location('vhost%d_%s' % (Host._n, name), p)
             mod = importlib.util.module_from_spec(spec)
             mod.__dict__['_ARR'] = self.arr
@@ -404,6 +416,10 @@ def tp_location(tp):
     a = tp.get('args', {})
     if tp.get('capture') == 'method' or 'method_name' in a:
         return ('func', tp['path'], a.get('method_name') or tp.get('method_name'))
+    if tp.get('unmatchable'):
+        # a method tracepoint WITHOUT a method name aimed at a file whose source is not available: its location
+        # cannot be worked out (at_location raises); it never acts and must not disturb the others
+        return ('nosource', tp['path'])
     return ('line', tp['path'], tp['line'])
 
 
@@ -458,6 +474,7 @@ def model_effects(tp, kind):
 def model_tp(idx, tp):
     loc = tp_location(tp)
     l = ({'t': 'func', 'path': loc[1], 'name': loc[2]} if loc[0] == 'func'
+         else {'t': 'nosource', 'path': loc[1]} if loc[0] == 'nosource'
          else {'t': 'line', 'path': loc[1], 'line': loc[2]})
     return {'loc': l, 'actions': tp_model_actions(idx, tp)}
 
@@ -628,6 +645,8 @@ def invocations(events):
 
 def matches(loc, e):
     base = os.path.basename(e['path'])
+    if loc[0] == 'nosource':
+        return False
     if loc[0] == 'line':
         return e['kind'] == 'line' and base == loc[1] and e['line'] == loc[2]
     return e['kind'] == 'call' and base == loc[1] and e['func'] == loc[2]
@@ -823,10 +842,10 @@ def model_events(events):
     return [[e['kind'], e['path'], e['line'], e['func'], e['frame'], e['arg']] for e in events]
 
 
-def executed(files, entries):
+def executed(files, entries, nosource=()):
     """which (module file, line) a program executes and which functions it calls — used by the generators to aim
     tracepoints (the program is deterministic; this run uses the recorder only)."""
-    host = Host(files)
+    host = Host(files, nosource)
     try:
         rec = Recorder(host)
         run_program(host, [tuple(e) for e in entries], 'sys', rec.trace)
@@ -851,7 +870,7 @@ FIRED = ('snap', 'log', 'metric', 'span-open', 'cap-open')
 def run_case(case, hooks=False):
     """run one case: the reference run (recorder only), then the run under the real agent.  Returns the canonical
     observation."""
-    host = Host(case['files'])
+    host = Host(case['files'], case.get('nosource', ()))
     r = None
     try:
         entries = [tuple(e) for e in case['entries']]
